@@ -377,12 +377,10 @@ def check_module_flags(res, sm, table, modules=None) -> int:
   from ..report import Finding
 
   n = 0
+  consults = {}
   for mod in sm.modules.values():
     if mod.name.endswith("_test") or mod.name in ("types", "cli", "__pkg__"):
       continue
-    if modules is not None and mod.name not in modules:
-      continue
-    allowed = set(table.get(mod.name, ()))
     seen = {}
     for node in ast.walk(mod.tree):
       if isinstance(node, ast.Attribute):
@@ -390,6 +388,14 @@ def check_module_flags(res, sm, table, modules=None) -> int:
         cls = v.id if isinstance(v, ast.Name) else (v.attr if isinstance(v, ast.Attribute) else None)
         if cls in ("DisableBit", "EnableBit"):
           seen.setdefault(f"{cls}.{node.attr}", node.lineno)
+    consults[mod.name] = seen
+  # a test that MOVED with its code (some module of the table no longer consults the flag at all) is not a new consultation
+  moved = {f for m_, fl in table.items() for f in fl if f not in consults.get(m_, {})}
+  for mod in sm.modules.values():
+    if mod.name not in consults or (modules is not None and mod.name not in modules):
+      continue
+    allowed = set(table.get(mod.name, ())) | moved
+    seen = consults[mod.name]
     for flag, ln in sorted(seen.items()):
       n += 1
       res.ob(
